@@ -24,7 +24,19 @@ def gen(depth, n, nvars):
     if depth == 0 or r < 0.25:
         name, npar, nw = rng.choice([l for l in LEAVES if l[2] <= n])
         return Node("leaf", name=name, vars=[rng.randrange(nvars) for _ in range(npar)], wires=rng.sample(range(n), nw))
-    k = rng.choice(["adj", "pow", "ctrl", "prod", "prod", "sum", "sprod", "cob"])
+    k = rng.choice(["adj", "pow", "ctrl", "ctrl2", "prod", "prod", "sum", "sprod", "cob"])
+    if k == "ctrl2":
+        # nested controls with DIFFERENT control values on a composite base (flattening of Controlled(Controlled(.)))
+        e = gen(0, n, nvars) if rng.random() < 0.4 else gen(min(depth - 1, 1), n, nvars)
+        if rng.random() < 0.6:
+            f = gen(0, n, nvars)
+            e = Node(rng.choice(["prod", "sum"]), a=e, b=f)
+        free = [w for w in range(n) if w not in wires_of(e)]
+        if len(free) < 2:
+            return e
+        w1, w2 = rng.sample(free, 2)
+        b = rng.random() < 0.5
+        return Node("ctrl", cw=[w1], cv=[b], e=Node("ctrl", cw=[w2], cv=[not b], e=e))
     if k == "adj":
         return Node("adj", e=gen(depth - 1, n, nvars))
     if k == "pow":
@@ -183,10 +195,24 @@ def maptree(t, sigma):
 
 items, oblig = [], []
 ncase = 40 if tier == "quick" else 400
+def _L(name, vars, wires):
+    return Node("leaf", name=name, vars=vars, wires=wires)
+
+
+# fixed regression expressions, evaluated before the random ones: nested controls with different control values on
+# composite / legacy bases (flattening of Controlled(Controlled(.)) must keep each value on its wire)
+CORPUS = [
+    (4, Node("ctrl", cw=[0], cv=[True], e=Node("ctrl", cw=[1], cv=[False], e=Node("prod", a=_L("RX", [0], [2]), b=_L("PauliY", [], [3]))))),
+    (4, Node("ctrl", cw=[3], cv=[False], e=Node("ctrl", cw=[0], cv=[True], e=Node("sum", a=_L("RZ", [0], [1]), b=_L("SWAP", [], [1, 2]))))),
+    (4, Node("ctrl", cw=[2], cv=[False], e=Node("ctrl", cw=[3], cv=[True], e=Node("sprod", c=Fr(1, 2), e=_L("CNOT", [], [0, 1]))))),
+    (4, Node("ctrl", cw=[1, 3], cv=[True, False], e=Node("ctrl", cw=[0], cv=[False], e=Node("adj", e=Node("prod", a=_L("S", [], [2]), b=_L("RY", [1], [2])))))),
+]
 for ci in range(ncase):
     n = rng.choice([1, 2, 3, 3, 4])
     nvars = 2
     t = gen(rng.choice([1, 2, 2, 3] if tier == "quick" else [1, 2, 3, 3, 4]), n, nvars)
+    if ci < len(CORPUS):
+        n, t = CORPUS[ci]
     it = {"expr": descr(t), "n": n, "status": "ok", "detail": "", "kinds": []}
     items.append(it)
     # numeric statement (incl. simplify and map_wires) at random / boundary points
@@ -204,6 +230,10 @@ for ci in range(ncase):
                     Ms = np.asarray(qp.matrix(qp.simplify(op), wire_order=wo))
                     if not np.allclose(Ms, R, atol=1e-8):
                         bad = "simplify"
+                except qp.operation.MatrixUndefinedError:
+                    # simplify() may return a Sum of products containing ChangeOpBasis (has_matrix False): qp.matrix is then
+                    # undefined for the Sum although every summand has one; counted, not a violation of the property
+                    it.setdefault("kinds", []).append("simplify-no-matrix")
                 except Exception as e:
                     bad = f"simplify raised {type(e).__name__}: {str(e)[:80]}"
                 sg = list(range(n)); rng.shuffle(sg)
@@ -215,6 +245,10 @@ for ci in range(ncase):
                 break
     except qp.operation.MatrixUndefinedError:
         it["status"], it["detail"] = "no-matrix", "the implementation documents no matrix for this expression (MatrixUndefinedError)"
+        continue
+    except np.linalg.LinAlgError:
+        # a negative power of an operator that is singular at the sampled point: the inverse is undefined, nothing to compare
+        it["status"], it["detail"] = "no-matrix", "negative power of a singular operator (inverse undefined at the sampled parameters)"
         continue
     except Exception as e:
         it["numeric_fail"] = {"what": f"raised {type(e).__name__}: {str(e)[:150]}"}
